@@ -16,3 +16,108 @@ package reconciler
 //@   ensures requeue: last(ReconcileIng) != nil ==> result.0.RequeueAfter == r.Config.ReloadRetry
 //@   ensures noerr:   result.1 == nil
 //@ end
+
+// ---------------------------------------------------------------------------
+// C14 — every event lands in exactly one batch (sequential part + locking)
+
+//@ count MuLock   = (*sync.Mutex).Lock
+//@ count MuUnlock = (*sync.Mutex).Unlock
+
+// swap the accumulator under the lock: the batch handed out is the content
+// accumulated so far, the new accumulator is empty and chains the ConfigMap data
+//@ func (*watchers).getChangedObjects
+//@   props C14
+//@   requires state: w.ch != nil && !held(w.mu)
+//@   ensures copy:    *result == old(*w.ch)
+//@   ensures swapped: w.ch != nil && fresh(w.ch) && fresh(result) && w.ch != result
+//@   ensures empty:   len(w.ch.Links) == 0 && len(w.ch.Objects) == 0 && !w.ch.NeedFullSync && len(w.ch.IngressesAdd) == 0 && len(w.ch.IngressesUpd) == 0 && len(w.ch.IngressesDel) == 0
+//@       && w.ch.GlobalConfigMapDataNew == nil && w.ch.TCPConfigMapDataNew == nil
+//@   ensures chainG:  w.ch.GlobalConfigMapDataCur == ((old(w.ch.GlobalConfigMapDataNew) != nil) ? old(w.ch.GlobalConfigMapDataNew) : old(w.ch.GlobalConfigMapDataCur))
+//@   ensures chainT:  w.ch.TCPConfigMapDataCur == ((old(w.ch.TCPConfigMapDataNew) != nil) ? old(w.ch.TCPConfigMapDataNew) : old(w.ch.TCPConfigMapDataCur))
+//@   ensures running: w.run && !held(w.mu)
+//@   ensures one-section: calls(MuLock) == 1 && calls(MuUnlock) == 1
+//@ end
+
+//@ func (*watchers).running
+//@   props C14
+//@   requires state: !held(w.mu)
+//@   modifies w.mu
+//@   ensures value: result == old(w.run) && !held(w.mu)
+//@ end
+
+//@ count Compose = (*hdlr).compose
+//@ count Notify  = (*hdlr).notify
+//@ count Enqueue = (workqueue.TypedRateLimitingInterface).AddRateLimited
+
+// each handler: take the lock, record the event once, notify once, release
+//@ func (*hdlr).Create
+//@   props C14
+//@   requires state: h.w != nil && !held(h.w.mu)
+//@   ensures once:     calls(Compose) == 1 && calls(Notify) == 1
+//@   ensures one-section: calls(MuLock) == 1 && calls(MuUnlock) == 1
+//@   ensures released: !held(cur(old(h.w)).mu)
+//@   at call compose#1 assert locked: held(cur(old(h.w)).mu)
+//@   at call notify#1  assert locked: held(cur(old(h.w)).mu) && calls(Compose) == 1
+//@ end
+//@ func (*hdlr).Update
+//@   props C14
+//@   requires state: h.w != nil && !held(h.w.mu)
+//@   ensures once:     calls(Compose) == 1 && calls(Notify) == 1
+//@   ensures one-section: calls(MuLock) == 1 && calls(MuUnlock) == 1
+//@   ensures released: !held(cur(old(h.w)).mu)
+//@   at call compose#1 assert locked: held(cur(old(h.w)).mu)
+//@   at call notify#1  assert locked: held(cur(old(h.w)).mu) && calls(Compose) == 1
+//@ end
+//@ func (*hdlr).Delete
+//@   props C14
+//@   requires state: h.w != nil && !held(h.w.mu)
+//@   ensures once:     calls(Compose) == 1 && calls(Notify) == 1
+//@   ensures one-section: calls(MuLock) == 1 && calls(MuUnlock) == 1
+//@   ensures released: !held(cur(old(h.w)).mu)
+//@   at call compose#1 assert locked: held(cur(old(h.w)).mu)
+//@   at call notify#1  assert locked: held(cur(old(h.w)).mu) && calls(Compose) == 1
+//@ end
+//@ func (*hdlr).Generic
+//@   props C14
+//@   requires state: h.w != nil && h.w.ch != nil && !held(h.w.mu)
+//@   ensures once:     calls(Notify) == 1
+//@   ensures one-section: calls(MuLock) == 1 && calls(MuUnlock) == 1
+//@   ensures released: !held(cur(old(h.w)).mu)
+//@   at call notify#1 assert locked: held(cur(old(h.w)).mu) && h.w.ch.NeedFullSync
+//@ end
+
+// de-duplicating append: the result holds s and everything it held before
+//@ func appenddedup
+//@   props C14
+//@   modifies slice[*]
+//@   ensures has:  exists k int :: 0 <= k && k < len(result) && result[k] == s
+//@   ensures keep: forall k int :: 0 <= k && k < len(slice) ==> result[k] == old(slice[k])
+//@   ensures len:  len(result) == len(slice) || len(result) == len(slice) + 1
+//@   loop 1 invariant none: 0 <= $idx(1) && $idx(1) <= len(slice) && forall k int :: 0 <= k && k < $idx(1) ==> slice[k] != s
+//@ end
+
+//@ func (*hdlr).notify
+//@   props C14
+//@   ensures enqueued: calls(Enqueue) == 1
+//@   ensures full:     old(h.full) ==> before(Enqueue, h.w.ch.NeedFullSync)
+//@ end
+
+// ---------------------------------------------------------------------------
+// C08/C14 — an Ingress moving in or out of the class is delivered as add/delete
+
+//@ count Valid = (services.IsValidResource).IsValidIngress
+
+//@ func (*watchers).handlersIngress$2
+//@   props C08 C14
+//@   requires state: w.ch != nil
+//@   ensures asked:   calls(Valid) == 2
+//@   ensures update:  first(Valid) && last(Valid) ==> len(w.ch.IngressesUpd) == old(len(w.ch.IngressesUpd)) + 1 && w.ch.IngressesUpd[len(w.ch.IngressesUpd)-1] == newIng
+//@       && len(w.ch.IngressesAdd) == old(len(w.ch.IngressesAdd)) && len(w.ch.IngressesDel) == old(len(w.ch.IngressesDel))
+//@   ensures enters:  !first(Valid) && last(Valid) ==> len(w.ch.IngressesAdd) == old(len(w.ch.IngressesAdd)) + 1 && w.ch.IngressesAdd[len(w.ch.IngressesAdd)-1] == newIng
+//@       && len(w.ch.IngressesUpd) == old(len(w.ch.IngressesUpd)) && len(w.ch.IngressesDel) == old(len(w.ch.IngressesDel))
+//@   ensures leaves:  first(Valid) && !last(Valid) ==> len(w.ch.IngressesDel) == old(len(w.ch.IngressesDel)) + 1 && w.ch.IngressesDel[len(w.ch.IngressesDel)-1] == oldIng
+//@       && len(w.ch.IngressesUpd) == old(len(w.ch.IngressesUpd)) && len(w.ch.IngressesAdd) == old(len(w.ch.IngressesAdd))
+//@   ensures foreign: !first(Valid) && !last(Valid) ==> len(w.ch.IngressesUpd) == old(len(w.ch.IngressesUpd)) && len(w.ch.IngressesAdd) == old(len(w.ch.IngressesAdd)) && len(w.ch.IngressesDel) == old(len(w.ch.IngressesDel))
+//@   at call IsValidIngress#1 assert old-first: $arg1 == oldIng
+//@   at call IsValidIngress#2 assert new-second: $arg1 == newIng
+//@ end
